@@ -5,6 +5,7 @@ import subprocess
 import tempfile
 
 import common
+import gen
 import smtgen
 from common import w_shape, w_shapes, w_str, r_shape
 
@@ -28,6 +29,11 @@ EXTRA = [
 # bare name (known finding F52)
 SHADOW = ('BVExtractZeroExtend', '(set-logic ALL)\n(declare-const x (_ BitVec 8))\n(assert (= ((_ extract 5 2) ((_ zero_extend 4) x)) #b0000))\n'
           '(assert (forall ((x (_ BitVec 4))) (= x x)))\n(check-sat)\n')
+# the use site lies under a binder: a symbol of the body is bound there (SCOPE1), or the "function" is a bound variable (SCOPE2)
+SCOPE1 = ('InlineDefinedFuns', '(set-logic ALL)\n(declare-const y Int)\n(define-fun f () Int y)\n(assert (= y 1))\n(assert (let ((y 7)) (= f 1)))\n(check-sat)\n')
+SCOPE2 = ('InlineDefinedFuns', '(set-logic ALL)\n(define-fun c () Int 3)\n(assert (let ((c 5)) (= c 5)))\n(check-sat)\n')
+# |x| and x are one symbol: the formal parameter |x| is not substituted for x in the body
+QUOTED = ('InlineDefinedFuns', '(set-logic ALL)\n(declare-const x Int)\n(define-fun f ((|x| Int)) Int (+ x 1))\n(assert (= x 0))\n(assert (= (f 5) 6))\n(check-sat)\n')
 CAPTURE = ('InlineDefinedFuns', '(set-logic ALL)\n(declare-const y Int)\n(define-fun g ((p Int)) Bool (exists ((y Int)) (> y p)))\n(assert (g y))\n(check-sat)\n')
 
 
@@ -46,10 +52,23 @@ def z3_batch(queries, timeout=20):
             lines += [smtgen.render_shape(s) for s in decls]
             # symbols bound around the term (let / quantifier / parameters) become fresh constants
             declared = set(s[1] for s in decls if len(s) > 1 and isinstance(s[1], str))
+            for s_ in decls:
+                if s_[0] in ('declare-datatype', 'declare-datatypes'):
+                    declared |= set(x for x in gen.flat(s_) if isinstance(x, str))
+            ren = {}
             for n, so in scope:
-                if n not in declared:
+                if n in declared and n not in ren:
+                    # a bound symbol that shadows a declared one: inside the term (and inside the replacement, once it stands
+                    # there) the name means the bound symbol, inside the definitions it means the declared one
+                    ren[n] = '|' + n.strip('|') + '!bound|'
+                    lines.append(f'(declare-const {ren[n]} {smtgen.render_shape(so)})')
+                elif n not in declared:
                     lines.append(f'(declare-const {n} {smtgen.render_shape(so)})')
                     declared.add(n)
+            if ren:
+                def rn(sh):
+                    return ren.get(sh, sh) if isinstance(sh, str) else tuple(rn(x) for x in sh)
+                a, b = rn(a), rn(b)
             lines.append(f'(assert (not (= {smtgen.render_shape(a)} {smtgen.render_shape(b)})))')
             lines.append('(check-sat)')
             fn = os.path.join(d, f'q{k}.smt2')
@@ -119,14 +138,14 @@ def run(ctx):
     model = common.Model()
     rng = ctx.rng
     per = 40 if ctx.thorough else 7
-    texts = list(EXTRA) + [CAPTURE, SHADOW]
+    texts = list(EXTRA) + [CAPTURE, SHADOW, SCOPE1, SCOPE2, QUOTED]
     for cls in IDENTITY:
         for _ in range(per):
             r = instances.make(rng, cls)
             if r is not None:
                 texts.append((cls, r[0]))
     # every way in which binders can meet in a let, every run
-    for kind in ('parallel', 'nested', 'shadow', 'quant', 'plain2'):
+    for kind in ('parallel', 'nested', 'shadow', 'quant', 'plain2', 'swap'):
         for _ in range(3 if ctx.thorough else 1):
             r = instances.make(rng, 'LetSubstitution', kind=kind)
             if r is not None:
@@ -175,7 +194,9 @@ def run(ctx):
             scope = scope_of(exprs, node, impl)
             if any(so is None for _, so in scope):
                 continue
-            capture = {CAPTURE: 'F19-inlining-captures-bound-symbol', SHADOW: 'F52-width-lookup-ignores-scopes'}.get((cls, text))
+            capture = {CAPTURE: 'F19-inlining-captures-bound-symbol', SHADOW: 'F52-width-lookup-ignores-scopes',
+                       SCOPE1: 'F55-inlining-ignores-binders-at-the-use-site', SCOPE2: 'F55-inlining-ignores-binders-at-the-use-site',
+                       QUOTED: 'F56-quoted-and-simple-spelling-are-different-names'}.get((cls, text))
             queries.append((decls, scope, a, b))
             qmeta.append((cls, text, a, b, capture))
             if not any(isinstance(s, tuple) and s and s[0] in ('declare-datatypes', 'define-funs-rec') for s in shapes):
